@@ -32,7 +32,8 @@ MODES = ['left', 'linear', 'right', 'hull']
 def cases(draw, tier):
     c = draw(S.curves(5, 40 if tier == 'quick' else 200,
                       families=['mono_dec', 'mono_dec', 'convex', 'noise', 'plateau', 'quant', 'steps', 'pwl_dyadic',
-                                'pwl_rational', 'trace', 'concave', 'repo']))
+                                'pwl_rational', 'trace', 'concave', 'repo'],
+                      big_n=120 if tier == 'quick' else 400))
     n = len(c['pts'])
     k = draw(st.integers(2, min(12, n - 2)))
     mode = draw(st.sampled_from(['spread', 'adjacent', 'adjacent']))
